@@ -88,6 +88,26 @@ def run_script(m, script, ins):
             out.append(m.call_path("<Program as PartialEq>::eq", [Ref([get(st[1])], 0), Ref([get(st[2])], 0)]))
         elif op == "len":
             out.append(m.call_path("Program::len", [Ref([get(st[1])], 0)]))
+        elif op == "block_schedules":
+            td = m.td
+            cell = [get(st[1])]
+            cfg = m.call_path("<ControlFlowGraph as From<&Program>>::from", [Ref(cell, 0)])
+            res = []
+            for bi in range(len(cfg.fields[td.structs["ControlFlowGraph"].index("blocks")].items)):
+                blocks = cfg.fields[td.structs["ControlFlowGraph"].index("blocks")].items
+                r = m.call_path("BasicBlock::as_schedule_seconds::<DefaultHandler>", [Ref(blocks, bi), Ref(cell, 0), Ref([Agg("DefaultHandler", None, [])], 0)])
+                m.force_tag(r)
+                if r.tag != 0:
+                    res.append({"sched_err": True})
+                    continue
+                t = to_tree(m, r.fields[0])
+                f = lambda node, struct, name: node[1][td.structs[struct].index(name)]
+                items = []
+                for it in f(t, "Schedule", "items"):
+                    ts = f(it, "ComputedScheduleItem", "time_span")
+                    items.append([f(it, "ComputedScheduleItem", "instruction_index"), f(ts, "TimeSpan", "start_time")[1][0], f(ts, "TimeSpan", "duration")[1][0]])
+                res.append({"sched": [sorted(items), f(t, "Schedule", "duration")[1][0]]})
+            out.append(res)
         elif op == "get_qubits":
             lst = m.call_path("Program::to_instructions", [Ref([get(st[1])], 0)])
             res = []
